@@ -55,7 +55,7 @@ def extraShape (p : Pot S) : List Nat :=
 
 /-- `_validate_potential_ensemble_indices` -/
 def measurementIndex (p : Pot S) (c e : Nat) : List Nat :=
-  (if p.ensAxis then [c] else []) ++ (if iSinglePlane (p.planes.length : Int) then [] else [e])
+  (if iNoEns p.ensAxis then [] else [c]) ++ (if iSinglePlane (p.planes.length : Int) then [] else [e])
 
 /-- inner loop over the slices of one configuration; returns the wave after the last slice and the writes -/
 def sliceLoop (step : W → S → W) (detect : W → M) (mk : Nat → List Nat) :
